@@ -1,7 +1,8 @@
 /-
-Second walk through `Reconciler.sync`: when every pod the controller can see belongs to the Job and
-is well-named (no foreign pods), and the cached Job's refs are pairwise distinct and well-named, then
-so are the refs of the Job value `sync` computes, and no recorded timestamp is cleared.
+Second walk through `Reconciler.sync`: when every pod CONTROLLED BY THE JOB that the controller can
+see is well-named (pods that are not controlled by the Job are unconstrained: since the repair of F22
+no lookup reads them), and the cached Job's refs are pairwise distinct and well-named, then so are the
+refs of the Job value `sync` computes, and no recorded timestamp is cleared.
 Core Lean only.
 -/
 import FurikoModel.Proofs.JobCtlInvRefsPure
@@ -12,17 +13,19 @@ set_option linter.unusedVariables false
 namespace Furiko.JobCtl
 open Furiko Furiko.WQ Furiko.StatusLemmas Furiko.ParallelLemmas
 
-/-- the pod is controlled by the Job, well-named, and carries a creation timestamp -/
+/-- a pod that is controlled by the Job is well-named and carries a creation timestamp (a pod that
+is not controlled by the Job — a foreign pod — is unconstrained) -/
 def PodOK2 (j0 : JobObj) (d : PIndex) (p : PodObj) : Prop :=
-  p.ownerUid = some j0.uid ∧ PodNameOK j0 d p ∧ p.pod.creationTimestamp.isSome = true
+  p.ownerUid = some j0.uid → PodNameOK j0 d p ∧ p.pod.creationTimestamp.isSome = true
 
-/-- every pod on the server and in the pod cache is one of the Job's -/
+/-- every pod of the Job on the server and in the pod cache is well-formed -/
 structure PodsGood (j0 : JobObj) (s : Sys) : Prop where
   pods : ∀ p ∈ s.pods, PodOK2 j0 s.d p
   cache : ∀ p ∈ s.podCache, PodOK2 j0 s.d p
   cacheNodup : (podNames s.podCache).Nodup
 
 theorem podTask_good {j0 : JobObj} {d : PIndex} {p : PodObj} {t : Task} (hp : PodOK2 j0 d p)
+    (hown : p.ownerUid = some j0.uid)
     (h : podTask p = some t) : TaskOK t ∧ RefOK j0 d t.ref ∧ t.name = p.pod.name := by
   have hok := podTask_ok h
   refine ⟨hok.1, ?_, hok.2⟩
@@ -38,48 +41,49 @@ theorem podTask_good {j0 : JobObj} {d : PIndex} {p : PodObj} {t : Task} (hp : Po
     | some fin =>
       simp only [hf, Option.some.injEq] at hr
       subst hr
-      obtain ⟨_, ⟨idx, retry, h1, _, _, h4, h5, h6⟩, hc⟩ := hp
+      obtain ⟨⟨idx, retry, h1, _, _, h4, h5, h6⟩, hc⟩ := hp hown
       refine ⟨⟨idx, h1, h5, ?_⟩, hc⟩
       simp only [h6, Option.getD_some]
       exact h4
 
-theorem tasksForRefs_good {j0 : JobObj} {s : Sys} (hp : PodsGood j0 s) (refs : List TaskRef)
+theorem tasksForRefs_good {j0 jo : JobObj} {s : Sys} (hp : PodsGood j0 s) (hu : jo.uid = j0.uid) (refs : List TaskRef)
     (hnd : (refs.map (·.name)).Nodup) :
-    TasksGood j0 s.d (tasksForRefs s refs) ∧ ∀ n ∈ (tasksForRefs s refs).map (·.name), n ∈ refs.map (·.name) := by
-  have hsub := filterMap_names_sublist (getTaskForRef s) (·.name) (·.name)
+    TasksGood j0 s.d (tasksForRefs s jo refs) ∧ ∀ n ∈ (tasksForRefs s jo refs).map (·.name), n ∈ refs.map (·.name) := by
+  have hsub := filterMap_names_sublist (getTaskForRef s jo) (·.name) (·.name)
     (fun x y h => (getTaskForRef_ok h).2) refs
   refine ⟨⟨hsub.nodup hnd, ?_⟩, fun n hn => hsub.subset hn⟩
   intro t ht
   unfold tasksForRefs at ht
   obtain ⟨r, _, hr⟩ := List.mem_filterMap.mp ht
-  obtain ⟨p, hpm, hpt⟩ := getTaskForRef_src hr
+  obtain ⟨p, hpm, hpt, hown⟩ := getTaskForRef_owned hr
   have hgood : PodOK2 j0 s.d p := by
     rcases hpm with h | h
     · exact hp.cache p (findPod_some h).1
     · exact hp.pods p (findPod_some h).1
-  have := podTask_good hgood hpt
+  have := podTask_good hgood (hu ▸ hown) hpt
   exact ⟨this.1, this.2.1⟩
 
-theorem tasksForRefsConfirmed_good {j0 : JobObj} {s : Sys} (hp : PodsGood j0 s) (refs : List TaskRef)
-    (hnd : (refs.map (·.name)).Nodup) : TasksGood j0 s.d (tasksForRefsConfirmed s refs) := by
-  have hsub := filterMap_names_sublist (getTaskForRefConfirmed s) (·.name) (·.name)
+theorem tasksForRefsConfirmed_good {j0 jo : JobObj} {s : Sys} (hp : PodsGood j0 s) (hu : jo.uid = j0.uid)
+    (refs : List TaskRef)
+    (hnd : (refs.map (·.name)).Nodup) : TasksGood j0 s.d (tasksForRefsConfirmed s jo refs) := by
+  have hsub := filterMap_names_sublist (getTaskForRefConfirmed s jo) (·.name) (·.name)
     (fun x y h => (getTaskForRefConfirmed_ok h).2) refs
   refine ⟨hsub.nodup hnd, ?_⟩
   intro t ht
   unfold tasksForRefsConfirmed at ht
   obtain ⟨r, _, hr⟩ := List.mem_filterMap.mp ht
-  obtain ⟨p, hpm, hpt⟩ := getTaskForRefConfirmed_src hr
+  obtain ⟨p, hpm, hpt, hown⟩ := getTaskForRefConfirmed_owned hr
   have hgood : PodOK2 j0 s.d p := by
     rcases hpm with h | h
     · exact hp.cache p (findPod_some h).1
     · exact hp.pods p (findPod_some h).1
-  have := podTask_good hgood hpt
+  have := podTask_good hgood (hu ▸ hown) hpt
   exact ⟨this.1, this.2.1⟩
 
 theorem newPod_good {j0 jo : JobObj} {d : PIndex} (hjo : VerOK j0 jo) {idx : PIndex} {retry : Int}
     (hreq : CreateReq d jo idx retry) (t : Time) : PodOK2 j0 d (newPod jo idx retry t) := by
   obtain ⟨h1, _, h3, h4⟩ := createReq_facts hreq
-  refine ⟨by show some jo.uid = _; rw [hjo.uid], ⟨idx, retry, ?_, h3, ?_, ?_, rfl, rfl⟩, rfl⟩
+  refine fun _ => ⟨⟨idx, retry, ?_, h3, ?_, ?_, rfl, rfl⟩, rfl⟩
   · rw [← indexes_of_template hjo.template]; exact h1
   · rw [← maxAttempts_of_template hjo.template]; exact h4
   · show taskName jo.name idx.hash retry = _; rw [hjo.name]
@@ -96,7 +100,7 @@ theorem PodsGood.of_pods {j0 : JobObj} {s s' : Sys} (h : PodsGood j0 s) (hs : St
 
 theorem PodOK2.markDeleted {j0 : JobObj} {d : PIndex} {p : PodObj} (h : PodOK2 j0 d p) (t : Time) :
     PodOK2 j0 d { p with pod := { p.pod with deletionTimestamp := some t } } :=
-  ⟨h.1, h.2.1.transfer rfl rfl rfl, h.2.2⟩
+  fun ho => ⟨(h ho).1.transfer rfl rfl rfl, (h ho).2⟩
 
 theorem PodsGood.micro {j0 jo : JobObj} {sp s s' : Sys} (h : PodsGood j0 s) (hjo : VerOK j0 jo)
     (hm : Micro jo sp s s') : PodsGood j0 s' := by
@@ -247,13 +251,39 @@ theorem TasksGood.snoc {j0 : JobObj} {d : PIndex} {tasks : List Task} {t : Task}
     · exact h.ok x hx
     · simp only [List.mem_singleton] at hx; subst hx; exact ht
 
+/-- what the creation loop did to the working Job: nothing, or it set the admission-error
+annotation — which happens only when the pod cache holds a pod that is not controlled by the Job -/
+def AdmOr (jo : JobObj) (cache : List PodObj) (rj rj1 : Job) : Prop :=
+  rj1 = rj ∨ (rj1 = { rj with admissionError := true } ∧ ∃ p ∈ cache, p.ownerUid ≠ some jo.uid)
+
+theorem AdmOr.status {jo : JobObj} {cache : List PodObj} {rj rj1 : Job} (h : AdmOr jo cache rj rj1) :
+    rj1.status = rj.status := by
+  rcases h with h | ⟨h, _⟩ <;> rw [h]
+
+/-- without a foreign pod in the pod cache the working Job is unchanged -/
+theorem AdmOr.eq_of_owned {jo : JobObj} {cache : List PodObj} {rj rj1 : Job} (h : AdmOr jo cache rj rj1)
+    (ho : ∀ p ∈ cache, p.ownerUid = some jo.uid) : rj1 = rj := by
+  rcases h with h | ⟨_, p, hp, hn⟩
+  · exact h
+  · exact absurd (ho p hp) hn
+
+theorem AdmOr.trans {jo : JobObj} {cache : List PodObj} {a b c : Job} (h1 : AdmOr jo cache a b)
+    (h2 : AdmOr jo cache b c) : AdmOr jo cache a c := by
+  rcases h1 with rfl | ⟨rfl, hx⟩
+  · exact h2
+  · rcases h2 with rfl | ⟨rfl, _⟩
+    · exact Or.inr ⟨rfl, hx⟩
+    · exact Or.inr ⟨rfl, hx⟩
+
 theorem syncCreateTask_good {j0 : JobObj} (s : Sys) (jo : JobObj) (rj : Job) (tasks : List Task) (idx : PIndex)
     (retry : Int) (hp : PodsGood j0 s) (hjo : VerOK j0 jo) (hreq : CreateReq s.d jo idx retry)
     (ht : TasksGood j0 s.d tasks) (hn : taskName jo.name idx.hash retry ∉ tasks.map (·.name)) :
     ∀ rj1 tasks1, (syncCreateTask s jo rj tasks idx retry).2 = some (rj1, tasks1) →
-      rj1 = rj ∧ TasksGood j0 s.d tasks1 ∧
-      ∃ t p, tasks1 = tasks ++ [t] ∧ t.name = taskName jo.name idx.hash retry ∧ podTask p = some t ∧
-        (p = newPod jo idx retry (nowT s) ∨ p ∈ s.podCache) := by
+      AdmOr jo s.podCache rj rj1 ∧ TasksGood j0 s.d tasks1 ∧
+      (tasks1 = tasks ∨
+       ∃ t p, tasks1 = tasks ++ [t] ∧ t.name = taskName jo.name idx.hash retry ∧ podTask p = some t ∧
+        ((p = newPod jo idx retry (nowT s) ∧ taskName jo.name idx.hash retry ∉ podNames s.pods) ∨
+         (p ∈ s.podCache ∧ p.ownerUid = some jo.uid))) := by
   intro rj1 tasks1
   unfold syncCreateTask
   have hspec := apiCreatePod_spec s jo idx retry
@@ -270,14 +300,20 @@ theorem syncCreateTask_good {j0 : JobObj} (s : Sys) (jo : JobObj) (rj : Job) (ta
       · rcases hs.2 with h2 | h2
         · simp only [CreateRes.ok.injEq] at h2; exact h2
         · cases h2
+    have hfr : taskName jo.name idx.hash retry ∉ podNames s.pods := by
+      rcases hspec with hs | hs
+      · exact absurd rfl (hs.2 p)
+      · exact (findPod_eq_none_iff _ _).mp hs.1.fresh
     cases hpt : podTask p with
     | none => simp [hpt] at h
     | some t =>
       simp only [hpt, Option.map_some, Option.some.injEq, Prod.mk.injEq] at h
       obtain ⟨rfl, rfl⟩ := h
-      have hg := podTask_good (hpe ▸ newPod_good hjo hreq (nowT s)) hpt
+      have hown : p.ownerUid = some j0.uid := by rw [hpe, ← hjo.uid]; rfl
+      have hg := podTask_good (hpe ▸ newPod_good hjo hreq (nowT s)) hown hpt
       have hname : t.name = taskName jo.name idx.hash retry := by rw [hg.2.2, hpe]; rfl
-      exact ⟨rfl, ht.snoc ⟨hg.1, hg.2.1⟩ (by rw [hname]; exact hn), t, p, rfl, hname, hpt, Or.inl hpe⟩
+      exact ⟨Or.inl rfl, ht.snoc ⟨hg.1, hg.2.1⟩ (by rw [hname]; exact hn),
+        Or.inr ⟨t, p, rfl, hname, hpt, Or.inl ⟨hpe, hfr⟩⟩⟩
   | err => simp only; intro h; cases h
   | «exists» =>
     simp only
@@ -287,90 +323,136 @@ theorem syncCreateTask_good {j0 : JobObj} (s : Sys) (jo : JobObj) (rj : Job) (ta
       simp only
       have hpc := findPod_some hc
       rw [hst.podCache] at hpc
-      have hown : p.ownerUid = some jo.uid := by rw [hjo.uid]; exact (hp.cache p hpc.1).1
-      rw [if_pos hown]
-      intro h
-      cases hpt : podTask p with
-      | none => simp [hpt] at h
-      | some t =>
-        simp only [hpt, Option.map_some, Option.some.injEq, Prod.mk.injEq] at h
+      by_cases hown : p.ownerUid = some jo.uid
+      · rw [if_pos hown]
+        intro h
+        cases hpt : podTask p with
+        | none => simp [hpt] at h
+        | some t =>
+          simp only [hpt, Option.map_some, Option.some.injEq, Prod.mk.injEq] at h
+          obtain ⟨rfl, rfl⟩ := h
+          have hg := podTask_good (hp.cache p hpc.1) (hjo.uid ▸ hown) hpt
+          have hname : t.name = taskName jo.name idx.hash retry := by rw [hg.2.2]; exact hpc.2
+          exact ⟨Or.inl rfl, ht.snoc ⟨hg.1, hg.2.1⟩ (by rw [hname]; exact hn),
+            Or.inr ⟨t, p, rfl, hname, hpt, Or.inr ⟨hpc.1, hown⟩⟩⟩
+      · rw [if_neg hown]
+        intro h
+        simp only [Option.some.injEq, Prod.mk.injEq] at h
         obtain ⟨rfl, rfl⟩ := h
-        have hg := podTask_good (hp.cache p hpc.1) hpt
-        have hname : t.name = taskName jo.name idx.hash retry := by rw [hg.2.2]; exact hpc.2
-        exact ⟨rfl, ht.snoc ⟨hg.1, hg.2.1⟩ (by rw [hname]; exact hn), t, p, rfl, hname, hpt, Or.inr hpc.1⟩
+        exact ⟨Or.inr ⟨rfl, p, hpc.1, hown⟩, ht, Or.inl rfl⟩
+
+/-- `syncCreateTask` only ever adds a pod to the server -/
+theorem syncCreateTask_pods_sup (s : Sys) (jo : JobObj) (rj : Job) (tasks : List Task) (idx : PIndex) (retry : Int) :
+    ∀ n ∈ podNames s.pods, n ∈ podNames (syncCreateTask s jo rj tasks idx retry).1.pods := by
+  have hfst : (syncCreateTask s jo rj tasks idx retry).1 = (apiCreatePod s jo idx retry).1 := by
+    unfold syncCreateTask
+    generalize apiCreatePod s jo idx retry = r
+    obtain ⟨s1, res⟩ := r
+    cases res with
+    | ok p => rfl
+    | err => rfl
+    | «exists» =>
+      simp only
+      split
+      · rfl
+      · split <;> rfl
+  rw [hfst]
+  intro n hn
+  rcases apiCreatePod_spec s jo idx retry with hs | hs
+  · rw [hs.1.pods]; exact hn
+  · rw [hs.1.pods]
+    unfold podNames at hn ⊢
+    rw [List.map_append]
+    exact List.mem_append_left _ hn
 
 /-- a task added by the creation loop: it stands for one of the requests and comes from the pod just
-created or from an owned pod of the pod cache -/
-def NewTask (jo : JobObj) (cache : List PodObj) (names : List String) (t : Task) : Prop :=
-  t.name ∈ names ∧ ∃ p, podTask p = some t ∧ ((∃ idx retry tm, p = newPod jo idx retry tm) ∨ p ∈ cache)
+created (`NewPod`: controlled by the Job; its name was not on the server — not among `P0`, the names on
+the server when the loop started) or from a pod of the pod cache that is controlled by the Job -/
+def NewTask (jo : JobObj) (cache : List PodObj) (P0 : List String) (names : List String) (t : Task) : Prop :=
+  t.name ∈ names ∧ ∃ p, podTask p = some t ∧
+    (((∃ idx retry tm, p = newPod jo idx retry tm) ∧ p.pod.name ∉ P0) ∨ (p ∈ cache ∧ p.ownerUid = some jo.uid))
 
-theorem createLoop_good {j0 : JobObj} (jo : JobObj) (d : PIndex) (cache : List PodObj) (hjo : VerOK j0 jo) :
+theorem createLoop_good {j0 : JobObj} (jo : JobObj) (d : PIndex) (cache : List PodObj) (P0 : List String)
+    (hjo : VerOK j0 jo) :
     ∀ (reqs : List CreationRequest) (s : Sys) (rj : Job) (tasks : List Task) (minE : Option Time), s.d = d →
-    s.podCache = cache →
+    s.podCache = cache → (∀ n ∈ P0, n ∈ podNames s.pods) →
     PodsGood j0 s → (∀ r ∈ reqs, CreateReq d jo r.index r.retryIndex) → TasksGood j0 d tasks →
     (reqs.map (reqName jo)).Nodup → (∀ r ∈ reqs, reqName jo r ∉ tasks.map (·.name)) →
     ∀ rj1 tasks1 m, (createLoop jo reqs s rj tasks minE).2 = some (rj1, tasks1, m) →
-      rj1 = rj ∧ TasksGood j0 d tasks1 ∧
-      (∀ t ∈ tasks1, t ∈ tasks ∨ NewTask jo cache (reqs.map (reqName jo)) t) ∧ (∀ t ∈ tasks, t ∈ tasks1) := by
+      AdmOr jo cache rj rj1 ∧ TasksGood j0 d tasks1 ∧
+      (∀ t ∈ tasks1, t ∈ tasks ∨ NewTask jo cache P0 (reqs.map (reqName jo)) t) ∧ (∀ t ∈ tasks, t ∈ tasks1) := by
   intro reqs
   induction reqs with
   | nil =>
-    intro s rj tasks minE _ _ _ _ ht _ _ rj1 tasks1 m h
+    intro s rj tasks minE _ _ _ _ _ ht _ _ rj1 tasks1 m h
     unfold createLoop at h
     simp only [Option.some.injEq, Prod.mk.injEq] at h
     obtain ⟨rfl, rfl, _⟩ := h
-    exact ⟨rfl, ht, fun t h => Or.inl h, fun t h => h⟩
+    exact ⟨Or.inl rfl, ht, fun t h => Or.inl h, fun t h => h⟩
   | cons r rest ih =>
-    intro s rj tasks minE hd hcache hp hreq ht hnd hfresh rj1 tasks1 m h
+    intro s rj tasks minE hd hcache hsup hp hreq ht hnd hfresh rj1 tasks1 m h
     rw [createLoop_cons] at h
     simp only [List.map_cons, List.nodup_cons] at hnd
     have hreq' : ∀ x ∈ rest, CreateReq d jo x.index x.retryIndex := fun x hx => hreq x (List.mem_cons_of_mem _ hx)
-    have widen : ∀ t, NewTask jo cache (rest.map (reqName jo)) t →
-        NewTask jo cache ((r :: rest).map (reqName jo)) t :=
+    have widen : ∀ t, NewTask jo cache P0 (rest.map (reqName jo)) t →
+        NewTask jo cache P0 ((r :: rest).map (reqName jo)) t :=
       fun t ⟨h1, h2⟩ => ⟨List.mem_cons_of_mem _ h1, h2⟩
     by_cases hsk : skipReq r s = true
     · rw [if_pos hsk] at h
-      have := ih s rj tasks _ hd hcache hp hreq' ht hnd.2 (fun x hx => hfresh x (List.mem_cons_of_mem _ hx)) rj1 tasks1 m h
+      have := ih s rj tasks _ hd hcache hsup hp hreq' ht hnd.2 (fun x hx => hfresh x (List.mem_cons_of_mem _ hx)) rj1 tasks1 m h
       exact ⟨this.1, this.2.1, fun t ht' => (this.2.2.1 t ht').imp id (widen t), this.2.2.2⟩
     · rw [if_neg hsk] at h
       have hr : CreateReq s.d jo r.index r.retryIndex := by rw [hd]; exact hreq r List.mem_cons_self
       have h1 := syncCreateTask_good s jo rj tasks r.index r.retryIndex hp hjo hr (hd ▸ ht)
         (hfresh r List.mem_cons_self)
       have hm := (syncCreateTask_spec s jo s rj tasks r.index r.retryIndex hr (fun t h' => (ht.ok t h').1) (CreatePhase.refl _)).1
-      generalize syncCreateTask s jo rj tasks r.index r.retryIndex = res at h h1 hm
+      have hsupm := syncCreateTask_pods_sup s jo rj tasks r.index r.retryIndex
+      generalize syncCreateTask s jo rj tasks r.index r.retryIndex = res at h h1 hm hsupm
       obtain ⟨s1, o⟩ := res
       cases o with
       | none => simp only at h; cases h
       | some v =>
         obtain ⟨rj', tasks'⟩ := v
         simp only at h
-        obtain ⟨hst, ht', t0, p0, htasks, hname, hpt, hsrc⟩ := h1 rj' tasks' rfl
+        obtain ⟨hst, ht', hcase⟩ := h1 rj' tasks' rfl
+        rw [hcache] at hst
         have hp1 : PodsGood j0 s1 := hp.micros hjo hm
         have hd1 : s1.d = d := hm.static.d.trans hd
         have hc1 : s1.podCache = cache := hm.static.podCache.trans hcache
-        have hfresh' : ∀ x ∈ rest, reqName jo x ∉ tasks'.map (·.name) := by
-          intro x hx hmem
-          rw [htasks, List.map_append] at hmem
-          rcases List.mem_append.mp hmem with hmem | hmem
-          · exact hfresh x (List.mem_cons_of_mem _ hx) hmem
-          · simp only [List.map_cons, List.map_nil, List.mem_singleton] at hmem
-            apply hnd.1
-            rw [List.mem_map]
-            exact ⟨x, hx, by rw [hmem, hname]; rfl⟩
-        have := ih s1 rj' tasks' _ hd1 hc1 hp1 hreq' (hd ▸ ht') hnd.2 hfresh' rj1 tasks1 m h
-        refine ⟨this.1.trans hst, this.2.1, ?_, fun t htm => this.2.2.2 t (by rw [htasks]; exact List.mem_append_left _ htm)⟩
-        intro t ht1
-        rcases this.2.2.1 t ht1 with hin | hnew
-        · rw [htasks] at hin
-          rcases List.mem_append.mp hin with hin | hin
-          · exact Or.inl hin
-          · simp only [List.mem_singleton] at hin
-            subst hin
-            refine Or.inr ⟨by rw [hname]; exact List.mem_cons_self, p0, hpt, ?_⟩
-            rcases hsrc with h' | h'
-            · exact Or.inl ⟨_, _, _, h'⟩
-            · exact Or.inr (hcache ▸ h')
-        · exact Or.inr (widen t hnew)
+        have hsup1 : ∀ n ∈ P0, n ∈ podNames s1.pods := fun n hn => hsupm n (hsup n hn)
+        rcases hcase with htasks | ⟨t0, p0, htasks, hname, hpt, hsrc⟩
+        · -- the name is occupied by a foreign pod: admission error, no task added
+          subst htasks
+          have := ih s1 rj' tasks' _ hd1 hc1 hsup1 hp1 hreq' (hd ▸ ht') hnd.2
+            (fun x hx => hfresh x (List.mem_cons_of_mem _ hx)) rj1 tasks1 m h
+          exact ⟨hst.trans this.1, this.2.1, fun t ht1 => (this.2.2.1 t ht1).imp id (widen t), this.2.2.2⟩
+        · have hfresh' : ∀ x ∈ rest, reqName jo x ∉ tasks'.map (·.name) := by
+            intro x hx hmem
+            rw [htasks, List.map_append] at hmem
+            rcases List.mem_append.mp hmem with hmem | hmem
+            · exact hfresh x (List.mem_cons_of_mem _ hx) hmem
+            · simp only [List.map_cons, List.map_nil, List.mem_singleton] at hmem
+              apply hnd.1
+              rw [List.mem_map]
+              exact ⟨x, hx, by rw [hmem, hname]; rfl⟩
+          have := ih s1 rj' tasks' _ hd1 hc1 hsup1 hp1 hreq' (hd ▸ ht') hnd.2 hfresh' rj1 tasks1 m h
+          refine ⟨hst.trans this.1, this.2.1, ?_, fun t htm => this.2.2.2 t (by rw [htasks]; exact List.mem_append_left _ htm)⟩
+          intro t ht1
+          rcases this.2.2.1 t ht1 with hin | hnew
+          · rw [htasks] at hin
+            rcases List.mem_append.mp hin with hin | hin
+            · exact Or.inl hin
+            · simp only [List.mem_singleton] at hin
+              subst hin
+              refine Or.inr ⟨by rw [hname]; exact List.mem_cons_self, p0, hpt, ?_⟩
+              rcases hsrc with h' | h'
+              · refine Or.inl ⟨⟨_, _, _, h'.1⟩, ?_⟩
+                intro hmem
+                apply h'.2
+                rw [h'.1] at hmem
+                exact hsup _ hmem
+              · exact Or.inr ⟨hcache ▸ h'.1, h'.2⟩
+          · exact Or.inr (widen t hnew)
 
 /-! ### requests of one computation have distinct, fresh names -/
 
@@ -480,7 +562,7 @@ theorem sortPods_perm (l : List PodObj) : (sortPods l).Perm l := by
   simpa using foldl_insertPodSorted_perm l []
 
 theorem append_podTasks_good {j0 : JobObj} {d : PIndex} (tasks : List Task) (F : List PodObj)
-    (hF : (F.map (·.pod.name)).Nodup) (hFc : ∀ p ∈ F, PodOK2 j0 d p)
+    (hF : (F.map (·.pod.name)).Nodup) (hFc : ∀ p ∈ F, PodOK2 j0 d p) (hFo : ∀ p ∈ F, p.ownerUid = some j0.uid)
     (hnot : ∀ p ∈ F, tasks.any (fun x => decide (x.name = p.pod.name)) = false) (ht : TasksGood j0 d tasks) :
     TasksGood j0 d (tasks ++ F.filterMap podTask) := by
   have hsub := filterMap_names_sublist podTask (·.name) (·.pod.name) (fun x y h => (podTask_ok h).2) F
@@ -498,18 +580,23 @@ theorem append_podTasks_good {j0 : JobObj} {d : PIndex} (tasks : List Task) (F :
     rcases List.mem_append.mp htm with h | h
     · exact ht.ok t h
     · obtain ⟨p, hpf, hpt⟩ := List.mem_filterMap.mp h
-      have := podTask_good (hFc p hpf) hpt
+      have := podTask_good (hFc p hpf) (hFo p hpf) hpt
       exact ⟨this.1, this.2.1⟩
 
 theorem adoptUnrecordedTasks_good {j0 : JobObj} (s : Sys) (jo : JobObj) (tasks : List Task)
-    (hp : PodsGood j0 s) (ht : TasksGood j0 s.d tasks) : TasksGood j0 s.d (adoptUnrecordedTasks s jo tasks) := by
+    (hp : PodsGood j0 s) (hu : jo.uid = j0.uid) (ht : TasksGood j0 s.d tasks) :
+    TasksGood j0 s.d (adoptUnrecordedTasks s jo tasks) := by
   unfold adoptUnrecordedTasks
   simp only
   have hperm := sortPods_perm s.podCache
   have hsortnd : ((sortPods s.podCache).map (·.pod.name)).Nodup := (hperm.map _).nodup_iff.mpr hp.cacheNodup
-  refine append_podTasks_good tasks _ ((List.filter_sublist.map _).nodup hsortnd) ?_ ?_ ht
+  refine append_podTasks_good tasks _ ((List.filter_sublist.map _).nodup hsortnd) ?_ ?_ ?_ ht
   · intro p hpf
     exact hp.cache p (hperm.subset (List.mem_filter.mp hpf).1)
+  · intro p hpf
+    have := (List.mem_filter.mp hpf).2
+    simp only [Bool.and_eq_true, Bool.not_eq_true', decide_eq_true_eq] at this
+    rw [← hu]; exact this.2
   · intro p hpf
     have := (List.mem_filter.mp hpf).2
     simp only [Bool.and_eq_true, Bool.not_eq_true', decide_eq_true_eq] at this
